@@ -202,6 +202,17 @@ fn run(cfg: &Cfg, rep: &mut Report) {
             Err(format!("[{BACKEND}] {}", bad.join(", ")))
         }
     });
+    rep.pin("F23.rem_euclid_negative_multiple", {
+        let bad: Vec<String> = [(-6.0f32, 6.0f32), (-0.0, 1.0), (-203.0, 1.0), (-std::f32::consts::TAU, std::f32::consts::TAU)]
+            .iter()
+            .filter_map(|&(x, m)| {
+                let r = (b.rem_euclid)(x, m);
+                // the mm backend is approximate: only the exact backends are pinned
+                if r == 0.0 || BACKEND == "mm" { None } else { Some(format!("[{BACKEND}] rem_euclid({x:?}, {m:?}) = {r:?}, std gives 0")) }
+            })
+            .collect();
+        if bad.is_empty() { Ok(()) } else { Err(bad.join("; ")) }
+    });
     if let Some(f) = b.atan2 {
         rep.pin("F20.atan2_zero_zero", {
             let bad: Vec<String> = [(0.0f32, 0.0f32), (-0.0, 0.0)].iter().filter_map(|&(y, x)| match catch(|| f(y, x)) {
@@ -617,9 +628,25 @@ fn run(cfg: &Cfg, rep: &mut Report) {
     #[cfg(any(feature = "std", feature = "libm", feature = "mm"))]
     rep.run_stream(cfg, 6, "angle_wrap", cfg.n(400_000, 20_000_000), |rng, _, rep| {
         use re::math::angle::rads;
-        let x = rng.f32_in(-1000.0, 1000.0);
-        let min = rng.f32_in(-10.0, 10.0);
-        let max = min + rng.log_f32(0.1, 20.0);
+        let (min, max) = if rng.chance(1, 4) {
+            // the intervals people write: [0, 2π), [−π, π), [0, π), [0, 360°)
+            let (p, t) = (std::f32::consts::PI, std::f32::consts::TAU);
+            rng.pick(&[(0.0f32, t), (-p, p), (0.0, p), (0.0, 1.0), (-1.0, 1.0), (1.0, 3.0)])
+        } else {
+            let min = rng.f32_in(-10.0, 10.0);
+            (min, min + rng.log_f32(0.1, 20.0))
+        };
+        let len32 = max - min;
+        let x = match rng.below(8) {
+            // the ends and whole interval lengths away from them: the exact
+            // remainder is ±0 there
+            0 => min,
+            1 => max,
+            2 => min - rng.int(1, 1000) as f32 * len32,
+            3 => min + rng.int(1, 1000) as f32 * len32,
+            4 => rng.ulp_nudge(min),
+            _ => rng.f32_in(-1000.0, 1000.0),
+        };
         let mut hs = Hasher::new();
         hs.f32(x).f32(min).f32(max);
         rep.case(hs.get(), true);
@@ -633,6 +660,21 @@ fn run(cfg: &Cfg, rep: &mut Report) {
                 if !(w >= min && w <= max) || !(resid <= tol) {
                     rep.violation(&format!("fp.{BACKEND}.angle_wrap_differs"), format!("[{BACKEND}] rads({x}).wrap({min},{max}) = {w}"), Json::obj().set("x", f32s(x)).set("min", f32s(min)).set("max", f32s(max)));
                     return;
+                }
+                // "behaves the same as in std builds": what std's f32
+                // arithmetic gives for the same expression
+                let expect = min + (x - min).rem_euclid(max - min);
+                let tol32 = 16.0 * 1.1920929e-7 * (min.abs() + len32.abs()) + if BACKEND == "mm" { 3e-3 * len32.abs() } else { 0.0 };
+                if (w - expect).abs() > tol32 {
+                    rep.violation(
+                        &format!("fp.{BACKEND}.angle_wrap_differs_from_std"),
+                        format!("[{BACKEND}] rads({x:?}).wrap({min:?}, {max:?}) = {w:?}; a std build gives {expect:?}"),
+                        Json::obj().set("x", f32s(x)).set("min", f32s(min)).set("max", f32s(max)),
+                    );
+                    return;
+                }
+                if x == min || x == max || (x - min) % len32 == 0.0 {
+                    rep.count("wrap_checks.exact_multiple_or_end");
                 }
                 rep.count("wrap_checks");
             }
